@@ -211,14 +211,24 @@ theorem step_CONS (hr : Spec.step env .CONS st ≠ .err) :
   · exact absurd rfl hr
   · cases b <;> first | (exact absurd rfl hr) | skip
     rename_i t xs
-    simp only [Spec.step] at hr ⊢
+    have hs : Spec.step env .CONS (a :: .list t xs :: st) = (if typeOf a = t then .ok (.list t (a :: xs) :: st) else .err) := rfl
+    rw [hs] at hr ⊢
+    have hi : Impl.step env .CONS (stk pre (a :: .list t xs :: st)) = (do
+        let (a, l, s) ← (stk pre (a :: .list t xs :: st)).pop2
+        match l with
+        | .list t xs => if typeOf a = t then pure (s.push (.list t (a :: xs))) else .err
+        | _ => .err) := rfl
+    rw [hi]
     by_cases h : typeOf a = t
-    · simp [Impl.step, h]
+    · simp [h]
     · simp [h] at hr
 
 theorem step_PAIRN (n : Nat) (hr : Spec.step env (.PAIRN n) st ≠ .err) :
     Impl.step env (.PAIRN n) (stk pre st) = (Spec.step env (.PAIRN n) st).map' (stk pre) := by
-  simp only [Spec.step] at hr ⊢
+  have hs : Spec.step env (.PAIRN n) st = (match Spec.pairN n st with
+      | some (r, st') => .ok (r :: st')
+      | none => .err) := rfl
+  rw [hs] at hr ⊢
   cases hq : Spec.pairN n st with
   | none => simp [hq] at hr
   | some p =>
@@ -226,25 +236,52 @@ theorem step_PAIRN (n : Nat) (hr : Spec.step env (.PAIRN n) st ≠ .err) :
     obtain ⟨h1, h2, h3, h4⟩ := fromComb_refines n st r st' hq
     have h1' : ¬ n < 2 := by omega
     have h2' : ¬ st.length < n := by omega
-    simp [Impl.step, h1', pop_mk, h2', h3, h4]
+    have hi : Impl.step env (.PAIRN n) (stk pre st) = (if n < 2 then .err else do
+        let (leaves, s) ← (stk pre st).pop n
+        let r ← Impl.fromComb leaves
+        pure (s.push r)) := rfl
+    rw [hi]
+    simp [h1', pop_mk, h2', h3, h4]
 
 theorem step_UNPAIRN (n : Nat) (hr : Spec.step env (.UNPAIRN n) st ≠ .err) :
     Impl.step env (.UNPAIRN n) (stk pre st) = (Spec.step env (.UNPAIRN n) st).map' (stk pre) := by
   rcases st with _ | ⟨v, st⟩
   · exact absurd rfl hr
-  simp only [Spec.step] at hr ⊢
+  have hs : Spec.step env (.UNPAIRN n) (v :: st) = (match Spec.unpairN n v with
+      | some xs => .ok (xs ++ st)
+      | none => .err) := rfl
+  rw [hs] at hr ⊢
   cases hq : Spec.unpairN n v with
   | none => simp [hq] at hr
   | some xs =>
     obtain ⟨h1, ⟨a, b, rfl⟩, h3⟩ := unpairnComb_refines n v xs hq
     have h1' : ¬ n < 2 := by omega
-    simp only [Impl.step, h1', if_false, pop1_mk_cons, Res.bind_ok, h3, push_reversed, Res.pure_eq, map'_ok]
+    have hi : Impl.step env (.UNPAIRN n) (stk pre (.pair a b :: st)) = (if n < 2 then .err else do
+        let (p, s) ← (stk pre (.pair a b :: st)).pop1
+        match p with
+        | .pair _ _ => pure ((Impl.unpairnComb (n - 2) p).reverse.foldl Stack.push s)
+        | _ => .err) := rfl
+    rw [hi]
+    simp only [h1', if_false, pop1_mk_cons, Res.bind_ok, h3, push_reversed, Res.pure_eq, map'_ok]
 
 theorem step_GETN (n : Nat) (hr : Spec.step env (.GETN n) st ≠ .err) :
     Impl.step env (.GETN n) (stk pre st) = (Spec.step env (.GETN n) st).map' (stk pre) := by
   rcases st with _ | ⟨v, st⟩
   · exact absurd rfl hr
-  simp only [Spec.step] at hr ⊢
+  have hs : Spec.step env (.GETN n) (v :: st) = (match Spec.getN n v with
+      | some r => .ok (r :: st)
+      | none => .err) := rfl
+  rw [hs] at hr ⊢
+  have hi : Impl.step env (.GETN n) (stk pre (v :: st)) = (do
+      let (p, s) ← (stk pre (v :: st)).pop1
+      if n = 0 then pure (s.push p)
+      else match p with
+        | .pair _ _ =>
+          match (Impl.iterComb true p)[n]? with
+          | some r => pure (s.push r)
+          | none => .err
+        | _ => .err) := rfl
+  rw [hi]
   cases hq : Spec.getN n v with
   | none => simp [hq] at hr
   | some r =>
@@ -252,17 +289,27 @@ theorem step_GETN (n : Nat) (hr : Spec.step env (.GETN n) st ≠ .err) :
     · subst hn
       simp only [Spec.getN, Option.some.injEq] at hq
       subst hq
-      simp [Impl.step]
+      simp
     · obtain ⟨a, b, rfl⟩ := getN_pair n v r hn hq
       have := accessComb_refines n _ r hq
-      simp [Impl.step, hn, this]
+      simp [hn, this]
 
 theorem step_UPDATEN (n : Nat) (hr : Spec.step env (.UPDATEN n) st ≠ .err) :
     Impl.step env (.UPDATEN n) (stk pre st) = (Spec.step env (.UPDATEN n) st).map' (stk pre) := by
   rcases st with _ | ⟨e, _ | ⟨v, st⟩⟩
   · exact absurd rfl hr
   · exact absurd rfl hr
-  simp only [Spec.step] at hr ⊢
+  have hs : Spec.step env (.UPDATEN n) (e :: v :: st) = (match Spec.updateN n e v with
+      | some r => .ok (r :: st)
+      | none => .err) := rfl
+  rw [hs] at hr ⊢
+  have hi : Impl.step env (.UPDATEN n) (stk pre (e :: v :: st)) = (do
+      let (element, p, s) ← (stk pre (e :: v :: st)).pop2
+      if n = 0 then pure (s.push element)
+      else match p with
+        | .pair _ _ => do let r ← Impl.updateComb n element p; pure (s.push r)
+        | _ => .err) := rfl
+  rw [hi]
   cases hq : Spec.updateN n e v with
   | none => simp [hq] at hr
   | some r =>
@@ -270,9 +317,9 @@ theorem step_UPDATEN (n : Nat) (hr : Spec.step env (.UPDATEN n) st ≠ .err) :
     · subst hn
       simp only [Spec.updateN, Option.some.injEq] at hq
       subst hq
-      simp [Impl.step]
+      simp
     · obtain ⟨⟨a, b, rfl⟩, h2⟩ := updateComb_refines n e v r (by omega) hq
-      simp [Impl.step, hn, h2]
+      simp [hn, h2]
 
 /-- instructions of the form `a, b = pop2(); res = f(a, b); push(res)` -/
 theorem step_binop (i : Instr) (f g : Val → Val → Res Val)
